@@ -230,6 +230,40 @@ func checkC18(c *Check) {
 		}
 		c.Ob("R2", "milli-CPU notation is recognised", cq.Pos(), nm >= 1, "no store of a value parsed from the text before the \"m\" suffix")
 	}
+	// a declared price reaches the outputs unchanged: the coin parser used (ParseCoinNormalized / ParseDecCoin) truncates
+	// decimals, so the amount text must have been established to be an integer before it is parsed
+	{
+		cu := l.Func("sdl", "v2Coin", "UnmarshalYAML")
+		c.Analysed(fnName(cu))
+		for _, g := range fnAndClosuresDeep(cu) {
+			for _, call := range callsInOwn(g) {
+				full := calleeFull(call)
+				if !strings.HasSuffix(full, "types.ParseCoinNormalized") && !strings.HasSuffix(full, "types.ParseDecCoin") && !strings.HasSuffix(full, "types.ParseCoinsNormalized") {
+					continue
+				}
+				isInt := false
+				for _, a := range factsAt(call.Block()) {
+					if a.Op == "true" {
+						if cv, _ := callOf(a.X); cv != nil && (calleeFull(cv) == "(*math/big.Float).IsInt" || calleeFull(cv) == "(*math/big.Rat).IsInt") {
+							isInt = true
+						}
+					}
+					// an integer parse of the same text that succeeded
+					if a.Op == "eq" && a.Y != nil && isNilConst(a.Y) {
+						if cv, k := callOf(a.X); cv != nil && k >= 1 && (calleeFull(cv) == "strconv.ParseUint" || calleeFull(cv) == "strconv.ParseInt") {
+							isInt = true
+						}
+					}
+					if a.Op == "true" {
+						if cv, k := callOf(a.X); cv != nil && k == 1 && (strings.HasSuffix(calleeFull(cv), "types.NewIntFromString") || calleeFull(cv) == "(*math/big.Int).SetString") {
+							isInt = true
+						}
+					}
+				}
+				c.Ob("R2", "price amount is known to be an integer before the (truncating) coin parser sees it", call.Pos(), isInt, "a fractional price such as 2.5 is accepted and silently becomes 2 in the deployment group")
+			}
+		}
+	}
 	// group requirements
 	{
 		okA, okS := false, false
